@@ -12,7 +12,8 @@ from datetime import timedelta
 from typing import TYPE_CHECKING
 
 from stabilize.handlers.base import StabilizeHandler
-from stabilize.queue.messages import CancelRegion, CancelStage
+from stabilize.models.status import WorkflowStatus
+from stabilize.queue.messages import CancelRegion, CancelStage, CompleteWorkflow
 from stabilize.resilience.config import HandlerConfig
 
 if TYPE_CHECKING:
@@ -92,5 +93,24 @@ class CancelRegionHandler(StabilizeHandler[CancelRegion]):
                             stage_id=stage.id,
                         )
                     )
+                # CancelStage settles the stages but evaluates nothing (it leaves that
+                # to CompleteWorkflow) and starts nothing downstream: when the canceled
+                # stages were what the run was waiting for, nobody else would ever look
+                # at the workflow again - RUNNING for ever with an empty queue. Queue
+                # the evaluation here, as CancelWorkflow does behind its own fan-out.
+                # While a stage outside the region is still running, evaluating at
+                # once would fail the workflow fast (a CANCELED stage) and cancel that
+                # unrelated stage too: leave it one poll interval, like every
+                # CompleteWorkflow re-poll.
+                others_running = any(
+                    s.status == WorkflowStatus.RUNNING and s not in stages_to_cancel for s in execution.stages
+                )
+                txn.push_message(
+                    CompleteWorkflow(
+                        execution_type=message.execution_type,
+                        execution_id=message.execution_id,
+                    ),
+                    delay=self.retry_delay.total_seconds() if others_running else 0,
+                )
 
         self.with_execution(message, on_execution)
